@@ -88,3 +88,8 @@ pub fn row_of<const C: usize>(a: &MergeSkaArray<u64>, i: usize) -> [u8; C] {
 pub fn count_at(a: &MergeSkaArray<u64>, i: usize) -> usize { a.variant_count[i] }
 pub fn kmer_at(a: &MergeSkaArray<u64>, i: usize) -> u64 { a.split_kmers[i] }
 pub fn counts_len(a: &MergeSkaArray<u64>) -> usize { a.variant_count.len() }
+pub fn nrows_of(a: &MergeSkaArray<u64>) -> usize { a.variants.nrows() }
+pub fn ncols_of(a: &MergeSkaArray<u64>) -> usize { a.variants.ncols() }
+pub fn nkmers_of(a: &MergeSkaArray<u64>) -> usize { a.split_kmers.len() }
+pub fn name_of(a: &MergeSkaArray<u64>, j: usize) -> &String { &a.names[j] }
+pub fn nnames_of(a: &MergeSkaArray<u64>) -> usize { a.names.len() }
